@@ -246,18 +246,37 @@ def c06_case(draw):
         elif pk == 3 and ext:
             params = list(ext)
         lines.append({"fs": fs, "photos": draw(st.booleans()), "model": model, "params": params})
+    alias = None
+    if draw(st.sampled_from((False, False, True))):
+        # a ModelAlias defined and used in this file; in other files of the same process the very same word is unknown
+        alias = {"name": draw(st.sampled_from(ALIAS_POOL)), "model": draw(st.sampled_from(N.MODELS))}
+        if alias["name"] in known or not N.safe_label(alias["name"], tuple(allnames)):
+            alias = None
     unknown = None
     if draw(st.integers(0, 2)) == 0:
-        for _ in range(5):
+        if alias is None and draw(st.booleans()):
+            w = draw(st.sampled_from(ALIAS_POOL))
+            if w not in known and N.safe_label(w, tuple(allnames)) and w not in labels:
+                unknown = {"word": w, "how": "alias-of-another-file", "params": "none"}
+        for _ in range(5 if unknown is None else 0):
             w, how = near_miss(draw, known)
             if w not in known and N.safe_label(w, tuple(allnames)) and w not in labels:
                 unknown = {"word": w, "how": how, "params": draw(st.sampled_from(("none", "num", "word")))}
                 break
-    return {"calls": calls, "timing": timing, "lines": lines, "unknown": unknown}
+    return {"calls": calls, "timing": timing, "lines": lines, "unknown": unknown, "alias": alias}
+
+
+ALIAS_POOL = ("MA_1", "MyAlias", "SLPOLE_x1", "ALIASED", "mdl")
 
 
 def render_case(c):
-    out = ["Decay M0"]
+    out = []
+    al = c.get("alias")
+    if al:
+        out += [f"ModelAlias {al['name']} {al['model']} 1.0 2.0;"]
+    out += ["Decay M0"]
+    if al:
+        out.append(f"0.25 a {al['name']};")
     for ln in c["lines"]:
         toks = ["0.25", *ln["fs"]] + (["PHOTOS"] if ln["photos"] else []) + [ln["model"], *ln["params"]]
         out.append(" ".join(toks) + ";")
@@ -290,6 +309,8 @@ def check_case(c, rec):
                 p.parse()  # the registration must still hold for a second parse of the same instance
         want = [(ln["fs"], ("PHOTOS " if ln["photos"] else "") + ln["model"],
                  [float(x) if not N.safe_label(x, tuple(allnames)) else x for x in ln["params"]]) for ln in c["lines"]]
+        if c.get("alias"):
+            want = [(["a"], c["alias"]["model"], [1.0, 2.0])] + want
         got = details(p, "M0")
         if got != want:
             raise Mismatch("C06:generated", f"registered {c['calls']} timing {c['timing']}", want, got)
